@@ -421,7 +421,7 @@ func (r *run) playRandom(g *vc.Rng, profile string) {
 				r.slog("raw " + v)
 				r.doRaw(v)
 			case 1:
-				send(s, seq, &bodySpec{op: "garbage", n: g.Intn(5)})
+				send(s, seq, &bodySpec{op: "garbage", n: g.Intn(8 * garbageVariants)})
 			case 2:
 				ref := fmt.Sprintf("%d", 4*(2000000+g.Intn(1000)))
 				if len(written) > 0 && g.Bool() {
@@ -459,7 +459,7 @@ func (r *run) playRandom(g *vc.Rng, profile string) {
 			case 6: // a container whose middle item is undecodable: the rest of it is abandoned
 				top := &bodySpec{op: "cont"}
 				top.items = append(top.items, itemSpec{sid: sid(false), seq: 1, body: &bodySpec{op: "svc", n: g.Intn(64)}})
-				top.items = append(top.items, itemSpec{sid: sid(false), seq: int32(g.Intn(4)), body: &bodySpec{op: "garbage", n: g.Intn(5)}})
+				top.items = append(top.items, itemSpec{sid: sid(false), seq: int32(g.Intn(4)), body: &bodySpec{op: "garbage", n: g.Intn(8 * garbageVariants)}})
 				top.items = append(top.items, itemSpec{sid: sid(false), seq: 1, body: &bodySpec{op: "svc", n: g.Intn(64)}})
 				send(s, seq, top)
 			case 7: // every service constructor
